@@ -234,6 +234,12 @@ impl Writer {
             original_offset: *cur_offset,
             allocated_block_ids: Vec::new(),
         };
+        // Blocks sealed while planning are published to readers only after the batch's data
+        // has been written: a failed batch must be able to return to `original_block`, which
+        // it cannot do once that block is in the reader chain with the batch's bytes counted
+        // in `used`.
+        let original_block = block.clone();
+        let mut pending_seals: Vec<Block> = Vec::new();
 
         // Build write plan: (Block, in_block_offset, batch_index)
         let mut write_plan: Vec<(Block, u64, usize)> = Vec::new();
@@ -261,19 +267,23 @@ impl Writer {
                     need,
                     block.limit
                 );
-                FileStateTracker::set_block_unlocked(block.id as usize);
                 let mut sealed = block.clone();
                 sealed.used = planning_offset;
-                #[cfg(walrus_verif)]
-                crate::wal::verif::io_gate("flush", &sealed.file_path, "")?;
-                sealed.mmap.flush()?;
-                let _ = self.reader.append_block_to_chain(&self.col, sealed);
 
                 // Allocate new block
                 // SAFETY: We hold locks, so this writer has exclusive ownership
                 let new_block =
-                    unsafe { self.allocator.alloc_block(need.max(DEFAULT_BLOCK_SIZE))? };
+                    match unsafe { self.allocator.alloc_block(need.max(DEFAULT_BLOCK_SIZE)) } {
+                        Ok(b) => b,
+                        Err(e) => {
+                            // nothing has been written yet
+                            Self::withdraw_batch(&[], &revert_info, &mut *cur_offset);
+                            *block = original_block;
+                            return Err(e);
+                        }
+                    };
                 debug_print!("[batch] allocated new block_id={}", new_block.id);
+                pending_seals.push(sealed);
 
                 revert_info.allocated_block_ids.push(new_block.id);
                 *block = new_block;
@@ -309,7 +319,21 @@ impl Writer {
                     planning_offset,
                     total_bytes_usize,
                 ) {
-                    Ok(()) => return Ok(()),
+                    Ok(()) => {
+                        if let Err(e) = Self::flush_batch_files(&write_plan, &pending_seals) {
+                            Self::withdraw_batch(&write_plan, &revert_info, &mut *cur_offset);
+                            *block = original_block;
+                            return Err(e);
+                        }
+                        self.publish_batch(pending_seals, &mut *cur_offset, planning_offset);
+                        debug_print!(
+                            "[batch] SUCCESS: wrote {} entries, {} bytes to topic={}",
+                            batch.len(),
+                            total_bytes,
+                            self.col
+                        );
+                        return Ok(());
+                    }
                     Err(e) => {
                         if e.to_string().contains("io_uring init failed") {
                             debug_print!(
@@ -317,6 +341,8 @@ impl Writer {
                                 e
                             );
                         } else {
+                            // the submission path has rolled the offset back
+                            *block = original_block;
                             return Err(e);
                         }
                     }
@@ -347,24 +373,19 @@ impl Writer {
                 for block_id in revert_info.allocated_block_ids {
                     FileStateTracker::set_block_unlocked(block_id as usize);
                 }
+                *block = original_block;
                 return Err(e);
             }
         }
 
         // Success - fsync touched files
-        if let Err(e) = Self::flush_batch_files(&write_plan) {
+        if let Err(e) = Self::flush_batch_files(&write_plan, &pending_seals) {
             Self::withdraw_batch(&write_plan, &revert_info, &mut *cur_offset);
+            *block = original_block;
             return Err(e);
         }
 
-        #[cfg(walrus_verif)]
-        if let crate::wal::verif::Action::Die =
-            crate::wal::verif::io_event("batch_publish", &self.col, "", planning_offset, &[])
-        {
-            crate::wal::verif::die()
-        }
-        // NOW update the writer's offset to make data visible to readers
-        *cur_offset = planning_offset;
+        self.publish_batch(pending_seals, &mut *cur_offset, planning_offset);
 
         debug_print!(
             "[batch] SUCCESS (mmap): wrote {} entries, {} bytes to topic={}",
@@ -558,27 +579,8 @@ impl Writer {
                     ));
                 }
 
-                // Success - fsync all touched files
-                if let Err(e) = Self::flush_batch_files(write_plan) {
-                    Self::withdraw_batch(write_plan, revert_info, cur_offset);
-                    return Err(e);
-                }
-
-                #[cfg(walrus_verif)]
-                if let crate::wal::verif::Action::Die =
-                    crate::wal::verif::io_event("batch_publish", &self.col, "", planning_offset, &[])
-                {
-                    crate::wal::verif::die()
-                }
-                // NOW update the writer's offset to make data visible to readers
-                *cur_offset = planning_offset;
-
-                debug_print!(
-                    "[batch] SUCCESS: wrote {} entries, {} bytes to topic={}",
-                    batch.len(),
-                    total_bytes,
-                    self.col
-                );
+                // Success: the caller makes the data durable and visible
+                let _ = (planning_offset, total_bytes);
                 Ok(())
             }
             Err(e) => {
@@ -607,10 +609,13 @@ impl Writer {
 }
 
 impl Writer {
-    /// fsync every file the batch touched (once per file).
-    fn flush_batch_files(write_plan: &[(Block, u64, usize)]) -> std::io::Result<()> {
+    /// fsync every file the batch touched or sealed a block in (once per file).
+    fn flush_batch_files(
+        write_plan: &[(Block, u64, usize)],
+        sealed: &[Block],
+    ) -> std::io::Result<()> {
         let mut fsynced = HashSet::new();
-        for (blk, _, _) in write_plan.iter() {
+        for blk in write_plan.iter().map(|(b, _, _)| b).chain(sealed.iter()) {
             if !fsynced.contains(&blk.file_path) {
                 #[cfg(walrus_verif)]
                 crate::wal::verif::io_gate("flush", &blk.file_path, "")?;
@@ -619,6 +624,22 @@ impl Writer {
             }
         }
         Ok(())
+    }
+
+    /// Last step of a successful batch: hand the blocks it sealed to the readers, then move
+    /// the writer's offset so the entries in the active block become visible.
+    fn publish_batch(&self, sealed: Vec<Block>, cur_offset: &mut u64, planning_offset: u64) {
+        #[cfg(walrus_verif)]
+        if let crate::wal::verif::Action::Die =
+            crate::wal::verif::io_event("batch_publish", &self.col, "", planning_offset, &[])
+        {
+            crate::wal::verif::die()
+        }
+        for blk in sealed {
+            FileStateTracker::set_block_unlocked(blk.id as usize);
+            let _ = self.reader.append_block_to_chain(&self.col, blk);
+        }
+        *cur_offset = planning_offset;
     }
 
     /// A batch whose data was written but could not be made durable is reported as failed:
